@@ -76,6 +76,15 @@ DeclareAll(m, names, vals, i) ==
   IF i > Len(names) THEN m
   ELSE DeclareAll(Declare(m, names[i], Nth(vals, i)), names, vals, i + 1)
 EnvMark(e) == Val("env", e, 0, "")
+\* Reclaiming environments: when a call or a loop iteration is over and no closure was created
+\* since it began, the env nodes and store cells allocated since then are unreachable (only
+\* closures and frames above keep env ids) and are dropped. The call/loop frames carry the mark
+\* (last element of vs) and the closure count (field i) taken when they were pushed.
+Mark(m) == Val("mark", Len(m.envs), Len(m.store), "")
+Collect(m, mark, nclos) ==
+  IF Len(m.clos) = nclos /\ (Len(m.envs) > mark.hi \/ Len(m.store) > mark.lo) /\ m.env <= mark.hi
+  THEN [m EXCEPT !.envs = SubSeq(@, 1, mark.hi), !.store = SubSeq(@, 1, mark.lo)] ELSE m
+FrameMark(f) == f.vs[Len(f.vs)]
 
 \* ================================================================ tables (association lists in insertion order)
 \* a nil value is a tombstone: the key stays (stable positions), every reader skips it
@@ -166,8 +175,11 @@ Special(m, v, d) ==
                                          m.heap[v.hi].vs[i].t # "nil" /\ (Special(m, m.heap[v.hi].vs[i], d - 1) \/ Special(m, m.heap[v.hi].ks[i], 0))))
 AnySpecial(m, vs) == \E i \in 1..Len(vs) : Special(m, vs[i], 2)
 
-RECURSIVE CountCalls(_, _, _)
-CountCalls(log, name, i) == IF i = 0 THEN 0 ELSE (IF log[i].f = name THEN 1 ELSE 0) + CountCalls(log, name, i - 1)
+\* per-name call counters (m.cnt): the number of previous calls of an external function
+CallsOf(m, name) == LET i == SeqIndexOf(m.cnt.ks, name) IN IF i = 0 THEN 0 ELSE m.cnt.vs[i]
+Bump(m, name) == LET i == SeqIndexOf(m.cnt.ks, name) IN
+                 IF i = 0 THEN [m EXCEPT !.cnt.ks = Append(@, name), !.cnt.vs = Append(@, 1)] ELSE [m EXCEPT !.cnt.vs[i] = @ + 1]
+MaxLog == 5000     \* a longer log stops the run with st = "fuel"
 LoudEvents == <<"__index", "__newindex", "__call", "__add", "__sub", "__mul", "__div", "__mod", "__pow", "__unm",
                 "__concat", "__eq", "__lt", "__le", "__tostring", "__len">>
 LoudTable == [ks |-> [i \in 1..Len(LoudEvents) |-> Str(LoudEvents[i])],
@@ -179,9 +191,10 @@ MetaResult(ev) ==
 \* calling an external function value: log the call, return the scripted results
 ExtCall(m, name, args) ==
   IF AnySpecial(m, args) THEN Unspec(m, "global/library table passed to an external function")
+  ELSE IF Len(m.log) >= MaxLog THEN [m EXCEPT !.st = "fuel", !.why = "external-call log too long"]
   ELSE
-  LET nth == CountCalls(m.log, name, Len(m.log)) + 1 IN
-  LET m1 == [m EXCEPT !.log = Append(m.log, [f |-> name, a |-> RenderAll(m, args)])] IN
+  LET nth == CallsOf(m, name) + 1 IN
+  LET m1 == Bump([m EXCEPT !.log = Append(m.log, [f |-> name, a |-> RenderAll(m, args)])], name) IN
   CASE name = "ext0" -> RetV(m1, <<>>)
     [] name = "ext1" -> RetV(m1, <<NumI(nth)>>)
     [] name = "ext2" -> RetV(m1, <<NumI(10 + nth), NumI(20 + nth)>>)
@@ -209,7 +222,7 @@ Init(P, env) ==
     heap |-> << IF env.gset THEN RawSetT(EmptyTable, Str(env.gname), env.gval) ELSE EmptyTable,
                 MathLib, StringLib, TableLib, DebugLib, LoudTable >>,
     clos |-> <<>>, kont |-> << Frame("blk", P.root, 0, <<EnvMark(2)>>, 2) >>,
-    loaded |-> <<>>,
+    loaded |-> <<>>, cnt |-> [ks |-> <<>>, vs |-> <<>>],
     cfg |-> [assert |-> env.assert, profile |-> env.profile],
     log |-> <<>>, ret |-> <<>>, st |-> "run", why |-> "", steps |-> 0, meta |-> 0 ]
 
@@ -457,6 +470,7 @@ CallBi(P, m, name, args) ==
     [] name = "debug.profilebegin" \/ name = "debug.profileend" ->
          IF m.cfg.profile = "noop" THEN RetV(m, <<>>)
          ELSE IF AnySpecial(m, args) THEN Unspec(m, "global/library table passed to an external function")
+         ELSE IF Len(m.log) >= MaxLog THEN [m EXCEPT !.st = "fuel", !.why = "external-call log too long"]
          ELSE RetV([m EXCEPT !.log = Append(m.log, [f |-> name, a |-> RenderAll(m, args)])], <<>>)
     [] name = "require" ->
          IF a1.t # "str" THEN Err(m, "require: argument is not a string")
@@ -477,7 +491,7 @@ Call(P, m, f, args) ==
     LET ps == IF c.self THEN <<"self">> \o fnode.ns ELSE fnode.ns IN
     LET np == Len(ps) IN
     LET extra == IF fnode.c = 1 /\ Len(args) > np THEN SubSeq(args, np + 1, Len(args)) ELSE <<>> IN
-    LET m1 == PushK(m, Frame("callret", 0, 0, <<>>, m.env)) IN
+    LET m1 == PushK(m, Frame("callret", 0, Len(m.clos), <<Mark(m)>>, m.env)) IN
     LET m2 == NewScopeIn(m1, c.env, extra) IN
     EnterBlock(P, DeclareAll(m2, ps, args, 1), fnode.b, m.env)
   ELSE IF f.t = "bi" THEN CallBi(P, m, f.s, args)
@@ -674,23 +688,24 @@ MultiAssign(P, m, n, acc, vals) ==
 \* numeric for: f.vs = <<current, stop, step>> (doubles as values); test and enter the body, or leave
 ForIter(P, m, f) ==
   LET i == D(f.vs[1]) IN LET stop == D(f.vs[2]) IN LET step == D(f.vs[3]) IN
-  LET m0 == [m EXCEPT !.env = f.env] IN
+  LET m0 == Collect([m EXCEPT !.env = f.env], FrameMark(f), f.i) IN
   IF (IF FLt(Zero, step) THEN FLe(i, stop) ELSE FLe(stop, i))
-  THEN LET m1 == PushK(m0, [f EXCEPT !.vs[1] = NumD(FAdd(i, step))]) IN
+  THEN LET m1 == PushK(m0, [f EXCEPT !.vs[1] = NumD(FAdd(i, step)), !.vs[4] = Mark(m0), !.i = Len(m0.clos)]) IN
        LET m2 == Declare(m1, Node(P, f.n).s, NumD(i)) IN
        EnterBlock(P, m2, Node(P, f.n).b, f.env)
   ELSE Done(m0)
 \* generic for: f.vs = <<f, s, control>>; call the iterator
 GforCall(P, m, f) ==
   LET it == f.vs[1] IN
-  LET m1 == PushK([m EXCEPT !.env = f.env], [f EXCEPT !.k = "gforR"]) IN
+  LET m0 == Collect([m EXCEPT !.env = f.env], FrameMark(f), f.i) IN
+  LET m1 == PushK(m0, [f EXCEPT !.k = "gforR", !.vs[4] = Mark(m0), !.i = Len(m0.clos)]) IN
   IF IsFunc(it) THEN Call(P, m1, it, <<f.vs[2], f.vs[3]>>)
   ELSE IF it.t = "tab" THEN
        IF Meta(m, it, "__iter").t # "nil" THEN Unspec(m, "generic for: __iter is Luau-only")
        ELSE IF Meta(m, it, "__call").t = "nil" THEN Unspec(m, "generic for over a table (Luau iterates it, Lua 5.1 errors)")
        ELSE Call(P, m1, it, <<f.vs[2], f.vs[3]>>)
   ELSE Err(m, "attempt to call a " \o TypeName(it) \o " value (for iterator)")
-StartRepeat(P, m, n) == EnterBlock(P, PushK(m, Frame("rptB", n, 0, <<>>, m.env)), Node(P, n).a, -1)
+StartRepeat(P, m, n) == EnterBlock(P, PushK(m, Frame("rptB", n, Len(m.clos), <<Mark(m)>>, m.env)), Node(P, n).a, -1)
 LoopFrames == {"whB", "rptB", "forL", "gforL"}
 CallFrames == {"callret", "reqret"}
 RECURSIVE FindFrame(_, _, _, _)
@@ -823,8 +838,9 @@ ResumeV(P, m, f, vs) ==
                        IF Truthy(v) THEN ExecBlock(P, m, nd.l[f.i + 1])
                        ELSE IF f.i + 3 <= Len(nd.l) THEN FrameE(m, "ifC", f.n, f.i + 2, <<>>, nd.l[f.i + 2])
                        ELSE IF nd.c # 0 THEN ExecBlock(P, m, nd.c) ELSE Done(m)
-    [] f.k = "whC"  -> IF Truthy(v) THEN ExecBlock(P, PushK(m, Frame("whB", f.n, 0, <<>>, m.env)), Node(P, f.n).b) ELSE Done(m)
-    [] f.k = "rptC" -> IF Truthy(v) THEN Done([m EXCEPT !.env = f.env]) ELSE StartRepeat(P, [m EXCEPT !.env = f.env], f.n)
+    [] f.k = "whC"  -> IF Truthy(v) THEN ExecBlock(P, PushK(m, Frame("whB", f.n, Len(m.clos), <<Mark(m)>>, m.env)), Node(P, f.n).b) ELSE Done(m)
+    [] f.k = "rptC" -> LET m1 == Collect([m EXCEPT !.env = f.env], FrameMark(f), f.i) IN
+                       IF Truthy(v) THEN Done(m1) ELSE StartRepeat(P, m1, f.n)
     [] f.k = "forI" ->
          LET nd == Node(P, f.n) IN
          LET a == Nth(vs, 1) IN LET b == Nth(vs, 2) IN LET s == IF Len(nd.l) >= 3 THEN Nth(vs, 3) ELSE NumI(1) IN
@@ -834,10 +850,10 @@ ResumeV(P, m, f, vs) ==
          ELSE IF FIsNaN(D(a)) \/ FIsNaN(D(b)) \/ FIsNaN(D(s)) THEN Unspec(m, "numeric for with NaN")
          ELSE IF FEq(D(s), Zero) THEN Unspec(m, "numeric for with step 0 (Luau errors, Lua 5.1 loops forever)")
          ELSE IF FAdd(FSub(D(a), D(s)), D(s)) # D(a) THEN Unspec(m, "numeric for: (init - step) + step differs from init (5.1 pre-subtracts the step)")
-         ELSE ForIter(P, m, Frame("forL", f.n, 0, <<a, b, s>>, f.env))
-    [] f.k = "gforI" -> GforCall(P, m, Frame("gforL", f.n, 0, <<Nth(vs, 1), Nth(vs, 2), Nth(vs, 3)>>, f.env))
+         ELSE ForIter(P, m, Frame("forL", f.n, Len(m.clos), <<a, b, s, Mark(m)>>, f.env))
+    [] f.k = "gforI" -> GforCall(P, m, Frame("gforL", f.n, Len(m.clos), <<Nth(vs, 1), Nth(vs, 2), Nth(vs, 3), Mark(m)>>, f.env))
     [] f.k = "gforR" ->
-         IF v.t = "nil" THEN Done([m EXCEPT !.env = f.env])
+         IF v.t = "nil" THEN Done(Collect([m EXCEPT !.env = f.env], FrameMark(f), f.i))
          ELSE LET m1 == PushK(m, [f EXCEPT !.k = "gforL", !.vs[3] = v]) IN
               EnterBlock(P, DeclareAll(m1, Node(P, f.n).ns, vs, 1), Node(P, f.n).b, f.env)
     [] f.k = "ret"  -> Go(m, "R", 0, vs)
@@ -851,11 +867,11 @@ ResumeN(P, m, f) ==
          LET l == Node(P, f.n).l IN
          IF f.i < Len(l) THEN Go(PushK(m, [f EXCEPT !.i = f.i + 1, !.vs = <<EnvMark(m.env)>>]), "X", l[f.i + 1], <<>>)
          ELSE Done(IF f.env = -1 THEN m ELSE [m EXCEPT !.env = f.env])
-    [] f.k = "whB" -> FrameE([m EXCEPT !.env = f.env], "whC", f.n, 0, <<>>, Node(P, f.n).a)
-    [] f.k = "rptB" -> Go(PushK(m, Frame("rptC", f.n, 0, <<>>, f.env)), "E", Node(P, f.n).b, <<>>)
+    [] f.k = "whB" -> FrameE(Collect([m EXCEPT !.env = f.env], FrameMark(f), f.i), "whC", f.n, 0, <<>>, Node(P, f.n).a)
+    [] f.k = "rptB" -> Go(PushK(m, [f EXCEPT !.k = "rptC"]), "E", Node(P, f.n).b, <<>>)
     [] f.k = "forL" -> ForIter(P, m, f)
     [] f.k = "gforL" -> GforCall(P, m, f)
-    [] f.k = "callret" -> RetV([m EXCEPT !.env = f.env], <<>>)
+    [] f.k = "callret" -> RetV(Collect([m EXCEPT !.env = f.env], FrameMark(f), f.i), <<>>)
     [] f.k = "reqret" -> FinishReq(m, f, <<>>)
     [] OTHER -> Err(m, "resume N: unexpected frame " \o f.k)
 
@@ -872,10 +888,10 @@ Step(P, m0) ==
     [] c.m = "R" -> LET j == FindFrame(m.kont, nk, CallFrames, {}) IN
                     IF j = 0 THEN (IF AnySpecial(m, c.vs) THEN Unspec(m, "global/library table returned by the main chunk") ELSE Finish(m, c.vs))
                     ELSE LET f == m.kont[j] IN LET m1 == [m EXCEPT !.kont = SubSeq(m.kont, 1, j - 1)] IN
-                         IF f.k = "reqret" THEN FinishReq(m1, f, c.vs) ELSE RetV([m1 EXCEPT !.env = f.env], c.vs)
+                         IF f.k = "reqret" THEN FinishReq(m1, f, c.vs) ELSE RetV(Collect([m1 EXCEPT !.env = f.env], FrameMark(f), f.i), c.vs)
     [] c.m = "B" -> LET j == FindFrame(m.kont, nk, LoopFrames, CallFrames) IN
                     IF j = 0 THEN Err(m, "break outside a loop")
-                    ELSE Done([m EXCEPT !.kont = SubSeq(m.kont, 1, j - 1), !.env = m.kont[j].env])
+                    ELSE Done(Collect([m EXCEPT !.kont = SubSeq(m.kont, 1, j - 1), !.env = m.kont[j].env], FrameMark(m.kont[j]), m.kont[j].i))
     [] c.m = "C" -> LET j == FindFrame(m.kont, nk, LoopFrames, CallFrames) IN
                     IF j = 0 THEN Err(m, "continue outside a loop")
                     ELSE LET f == m.kont[j] IN
